@@ -262,6 +262,26 @@ def _reaches_normal_continuation(rf, s, d):
     return False
 
 
+class _PfxRep:
+    def __init__(self, rep, rule):
+        self._rep, self._rule, self.analysed = rep, rule, rep.analysed
+
+    def ob(self, rule, fn, desc, ok, detail="", loc=None):
+        return self._rep.ob(self._rule, fn, desc, ok, detail, loc)
+
+    def fail(self, rule, fn, desc, detail="", loc=None):
+        return self.ob(rule, fn, desc, False, detail, loc)
+
+    def floor(self, *a):
+        return None
+
+    def note(self, t):
+        self._rep.note(t)
+
+    def assume(self, t):
+        self._rep.assume(t)
+
+
 def run(facts, rep, tier, ctx):
     ws = World(facts, False)
     run_world(facts, rep, ws, {"results": 60, "err_edges": 5, "kind_arms": 4})
@@ -313,5 +333,11 @@ def run(facts, rep, tier, ctx):
             d = o["key"].split("|")[2]
             if "stream copy" in d:
                 rep.ob(("A/" if w_.asyncw else "") + "R20.8", o["fn"], d, o["ok"], o["detail"], o["loc"])
+    # R20.9 the overlay serves reads from the resolved path and hands that call's result on unchanged: no "try the next layer
+    # when this one fails" (a failing upper layer would be answered with a lower layer's stale bytes)
+    from . import c04
+    for w_ in (ws, wa):
+        if w_.present():
+            c04.overlay_read_delegation(facts, _PfxRep(rep, ("A/" if w_.asyncw else "") + "R20.9"), w_)
     rep.assume("`?` (Try::branch + from_residual) propagates; panicking consumers (unwrap/expect) are C13's concern")
     rep.assume("errors of pure path translation (join) are not underlying-filesystem failures")
